@@ -74,9 +74,12 @@ func (x *Exec) upgradeSchedule(name string) string {
 }
 
 // upgradeBegin wraps the BeginBlock at the plan height
-func (x *Exec) upgradeBegin(run func()) {
+func (x *Exec) upgradeBegin(run func(), halted *bool) {
 	before := x.C.customStores()
 	run()
+	if *halted {
+		return
+	}
 	after := x.C.customStores()
 	n := 0
 	for k, v := range before {
